@@ -330,6 +330,23 @@ def rule_keyword_boundary(prog):
                 "Ident::lex (%s): text such as `ref_count` or `type1` is split into a keyword and an identifier" % cont)
     else:
         out.missing("whole-word boundary test (`starts_with`) of the keyword alternatives in Token::lex")
+    # character classes are decided on the character itself: `c as u8` cuts off the upper bits, so `Ł` (U+0141) is classified as `A`
+    bad = None
+    n_cast = 0
+    for lb in c.bodies:
+        f_ = c.file_of(lb["sp"])
+        if not (f_.endswith("lexer.rs") or "/lexer/" in f_) or "/tests" in f_:
+            continue
+        for cs in hir.nodes(lb["body"], "Cast"):
+            src_t = c.tstr(cs["e"]["t"]) if "t" in cs.get("e", {}) else ""
+            dst_t = c.tstr(cs["t"]) if "t" in cs else ""
+            if src_t == "char" and dst_t in ("u8", "i8"):
+                n_cast += 1
+                bad = cs
+    out.add("lexer character classes", "no character is narrowed to a byte before it is classified", bad is None,
+            c.loc(bad["sp"]) if bad else c.loc(an0["sp"]),
+            "`c as u8` keeps only the low 8 bits: `Ł` (U+0141) becomes `A`, so non-ASCII letters are accepted inside identifiers and end "
+            "keywords differently than the lexical grammar says")
     return out
 
 
@@ -673,4 +690,63 @@ def rule_comment_lex(prog):
             out.add("TokenType::look_ahead", "a comment that may end with the text has look-ahead >= 1", la is not None and la >= 1,
                     c.loc(t["la_body"]["sp"]), "a comment in the last line has no line break yet; text typed behind it extends the "
                     "comment, so the token must be re-lexed when the change starts at its end (look_ahead is %s)" % la)
+    return out
+
+
+# ------------------------------------------------------------------ LEX-MUNCH / LEX-PAYLOAD
+
+def rule_lex_munch(prog):
+    """Longest match and losslessness inside the sub-lexers: (munch) the body of a lexeme is recognised by an unbounded
+    repetition - a combinator with an upper bound (take_while_m_n, many_m_n, take(n) with n > 1) cuts a long lexeme into two
+    tokens; (payload) the text stored in a token is text of the input (`<span>.to_string()`, a char of it), never a string
+    that was put together (format!, `+`), because `Display for TokenType` re-creates the lexeme from kind and payload."""
+    out = Out("LEX-MUNCH")
+    c = prog.front
+    lexers = [b for b in c.bodies if b["name"] == "lex" and "impl_trait" in b and c.file_of(b["sp"]).endswith("lexer.rs")]
+    if len(lexers) < 6:
+        out.missing("Lexer impls in lexer.rs (found %d)" % len(lexers))
+        return out
+    bounded = ("take_while_m_n", "many_m_n", "take_till_m_n", "fold_many_m_n", "count")
+    for b in lexers:
+        bad = None
+        for call in hir.nodes_deep(prog, b["body"], 1, crate=c):
+            if call.get("k") != "Call":
+                continue
+            nm = last(hir.callee(call) or "")
+            if nm in bounded and (hir.callee(call) or "").startswith("nom::"):
+                bad = call
+        out.add(b["d"], "the lexeme body is matched by an unbounded repetition (longest match)", bad is None, c.loc((bad or b)["sp"]),
+                "`%s` puts an upper bound on the length of the lexeme: a longer literal is split into two tokens (and its value "
+                "changes) instead of being one token" % (last(hir.callee(bad) or "") if bad else ""), ("munch",))
+        # payloads
+        defs = _defs(b)
+        for call in hir.nodes(b["body"], "Call"):
+            d = hir.path_def(call["f"])
+            ctor = (d or {}).get("ctor_of", "")
+            if not (ctor.startswith("spl_frontend::tokens::TokenType::") or ctor.startswith("spl_frontend::tokens::IntResult::Err")):
+                continue
+            for a in call["args"]:
+                if "String" not in c.tstr(a["t"]):
+                    continue
+
+                def has_const_text(e):
+                    return any(x.get("k") == "Lit" and x["lit"].get("k") == "str" and (x["lit"].get("v") or "") != "" for x in hir.nodes(e))
+
+                def built(e, depth=0):
+                    # assembled with constant text (joining two adjacent spans of the input, as Ident::lex does, is still input text)
+                    e = hir.strip_ref(e)
+                    if e.get("k") == "Binary" and e["op"] == "+" and has_const_text(e):
+                        return True
+                    if "format!" in (e.get("mx") or []):
+                        return True
+                    if e.get("k") == "Path" and e["res"].get("k") == "Local" and e["res"]["id"] in defs and depth < 6:
+                        return built(defs[e["res"]["id"]], depth + 1)
+                    if e.get("k") == "MethodCall" and e["m"] in ("clone", "to_string", "to_owned", "into"):
+                        return built(e["recv"], depth + 1)
+                    return False
+                ok = not built(a)
+                out.add(b["d"], "token payload `%s` is text of the input, not an assembled string" % last(ctor), ok, c.loc(call["sp"]),
+                        "the payload of `%s` is put together (`+` / format!): `Display for TokenType` re-creates the lexeme from kind and "
+                        "payload (it adds the `0x` itself), so formatting prints something that is not the lexeme that was read" % last(ctor),
+                        ("payload",))
     return out
